@@ -220,6 +220,47 @@ template <typename S> auto udone(S&& s, fnobj f) {
   return unifex::upon_done((S&&)s, [f]() { return f(0); });
 }
 
+
+// ---- with_query_value look-alike whose receiver answers the query through a customisation that is NOT noexcept ----
+// (the library's own forwarding receivers must forward such a query exactly like a noexcept one)
+template <int Q, typename R>
+struct withq_nt_receiver {
+  R r; int v;
+  template <typename... V> void set_value(V&&... vs) && noexcept(unifex::is_nothrow_receiver_of_v<R, V...>) {
+    unifex::set_value(std::move(r), (V&&)vs...);
+  }
+  template <typename E> void set_error(E&& e) && noexcept { unifex::set_error(std::move(r), (E&&)e); }
+  void set_done() && noexcept { unifex::set_done(std::move(r)); }
+  friend int tag_invoke(std::conditional_t<Q == 0, get_q0_fn, get_q1_fn>, const withq_nt_receiver& self) /* not noexcept */ {
+    return self.v;
+  }
+  template <typename CPO, std::enable_if_t<unifex::is_receiver_query_cpo_v<CPO> &&
+      !std::is_same_v<CPO, std::conditional_t<Q == 0, get_q0_fn, get_q1_fn>>, int> = 0>
+  friend auto tag_invoke(CPO cpo, const withq_nt_receiver& self) noexcept(std::is_nothrow_invocable_v<CPO, const R&>)
+      -> std::invoke_result_t<CPO, const R&> {
+    return std::move(cpo)(std::as_const(self.r));
+  }
+};
+template <int Q, typename S>
+struct withq_nt_sender {
+  template <template <typename...> class Variant, template <typename...> class Tuple>
+  using value_types = unifex::sender_value_types_t<S, Variant, Tuple>;
+  template <template <typename...> class Variant>
+  using error_types = unifex::sender_error_types_t<S, Variant>;
+  static constexpr bool sends_done = unifex::sender_traits<S>::sends_done;
+  static constexpr unifex::blocking_kind blocking = unifex::sender_traits<S>::blocking;
+  static constexpr bool is_always_scheduler_affine = unifex::sender_traits<S>::is_always_scheduler_affine;
+  S s; int v;
+  template <typename R>
+  friend auto tag_invoke(unifex::tag_t<unifex::connect>, withq_nt_sender&& self, R&& r) {
+    return unifex::connect(std::move(self.s), withq_nt_receiver<Q, unifex::remove_cvref_t<R>>{(R&&)r, self.v});
+  }
+  friend unifex::blocking_kind tag_invoke(unifex::tag_t<unifex::blocking>, const withq_nt_sender& self) noexcept {
+    return unifex::blocking(self.s);
+  }
+};
+template <int Q, typename S> auto withq_nt(S&& s, int v) { return withq_nt_sender<Q, unifex::remove_cvref_t<S>>{(S&&)s, v}; }
+
 struct mat_fold {
   int operator()(unifex::tag_t<unifex::set_value>, int v) const noexcept { return 3 * v; }
   int operator()(unifex::tag_t<unifex::set_error>, std::exception_ptr e) const noexcept { return 3 * code_of(e) + 1; }
